@@ -77,8 +77,10 @@ def gen_lookup(w, r, props=("C05", "C06", "C13"), scopes=("bi", "sec", "mod", "i
     return op
 
 
-def gen_spec(w, r):
-    syms = w.m.by_kind("sym")
+def gen_spec(w, r, bi=None):
+    from .gen_own import local_pool
+
+    syms = local_pool(w, r, bi, ("sym",))
     if not syms:
         return None
     k = r.randrange(0, 3)
@@ -117,7 +119,7 @@ def gen_se(w, r, pure=False):
         )[0]
     op = {"op": "se", "bi": bi, "method": meth}
     if meth in ("setitem", "setdefault"):
-        s = gen_spec(w, r)
+        s = gen_spec(w, r, bi)
         if s is None:
             return None
         op["args"] = [gen_off(w, r, bi), s]
@@ -134,7 +136,7 @@ def gen_se(w, r, pure=False):
             return op
         pairs = []
         for _ in range(r.randrange(0, 4)):
-            s = gen_spec(w, r)
+            s = gen_spec(w, r, bi)
             if s is None:
                 break
             pairs.append([gen_off(w, r, bi), s])
